@@ -96,6 +96,11 @@ func (e *Envelope) Sign(key Key) error {
 		return err
 	}
 
+	// SignPayload returns a fresh envelope that only carries the new
+	// signature: keep the signatures that were already there, like
+	// Metablock.Sign does, so that metadata can be signed by several keys.
+	env.Signatures = append(append([]dsse.Signature{}, e.envelope.Signatures...), env.Signatures...)
+
 	e.envelope = env
 	return nil
 }
